@@ -626,7 +626,7 @@ def ob_beam_theory_switch():
     return Verdict(DISCHARGED, backend="native run vs fresh simulation")
 
 
-def ob_behavior_elastic_change(solver):
+def ob_behavior_elastic_change(solver, aniso=False):
     """the elastic law inside an inelastic behaviour is an object the simulation observes through the behaviour: re-assigning one of its parameters must leave no
     stale derived data in the behaviour (the spectral return keeps a decomposition of C^1/2 P C^1/2)"""
     from EasyFEA import Models
@@ -635,6 +635,9 @@ def ob_behavior_elastic_change(solver):
 
     def mk(E, v):
         el = Models.Elastic.Isotropic(3, E=E, v=v)
+        if aniso:
+            # the same law held as a general matrix: it is replaced as a whole through Set_C
+            el = Models.Elastic.Anisotropic(3, np.asarray(el.C), useVoigtNotation=False)
         return IE.Behavior(3, el, yieldSurface=IE.Yield.VonMises(250.0), hardening=IE.IsotropicHardening.Linear(2000.0), solver=solver), el
     rng = np.random.default_rng(3)
     eps = np.array([3e-3, -5e-4, -5e-4, 1e-4, -2e-4, 3e-4])[None, None] * rng.uniform(0.2, 2.0, size=(2, 3, 1))
@@ -649,9 +652,15 @@ def ob_behavior_elastic_change(solver):
             told.append(event)
     b._Add_observer(Listener())
     n = 0
+    cur = dict(E=210e3, v=0.3)
     for name, val in (("E", 70e3), ("v", 0.2), ("E", 150e3)):
-        setattr(el, name, val)
-        fresh, _ = mk(float(el.E), float(el.v))
+        cur[name] = val
+        if aniso:
+            el.Set_C(np.asarray(Models.Elastic.Isotropic(3, **cur).C), useVoigtNotation=False)
+            name = f"Set_C(law of {name}"
+        else:
+            setattr(el, name, val)
+        fresh, _ = mk(cur["E"], cur["v"])
         got = b.Integrate(FeArray.asfearray(eps.copy()))
         want = fresh.Integrate(FeArray.asfearray(eps.copy()))
         n += 1
@@ -1519,6 +1528,9 @@ def build(tier, seed):
     obs.append(Ob("C14.I_cache.handmade", ob_cache_handmade, (), "E", ("EasyFEA/**::`if self.X is None: self.X = ...`",), clause="a field a hand-written memo depends on is never stored without storing the memo again (every class of the package)", timeout=600))
     obs.append(Ob("C14.history.hyperelastic.getter", ob_he_default_getter, (), "X", ("EasyFEA/Simulations/_simu.py::_Simu.Get_K_C_M_F",), bound="one dynamic hyperelastic step",
                   clause="after the update flag is raised the public getter assembles the system of the simulation's problem type"))
+    obs.append(Ob("C14.history.behavior.elastic.Set_C", ob_behavior_elastic_change, ("auto", True), "X", ("EasyFEA/Models/Elastic/_laws.py::Anisotropic.Set_C", "EasyFEA/Models/InElastic/_behavior.py::Behavior._Update"),
+                  bound="one von Mises / linear hardening behaviour on an Anisotropic elastic law, 6 strain states, the matrix replaced three times through Set_C", timeout=300,
+                  clause="after Set_C on the elastic law of an inelastic behaviour, Integrate returns what a behaviour built on the new matrix returns"))
     for solver in ("auto", "newton"):
         obs.append(Ob(f"C14.history.behavior.elastic.{solver}", ob_behavior_elastic_change, (solver,), "X", ("EasyFEA/Models/InElastic/_behavior.py::Behavior.__init__", "EasyFEA/Models/InElastic/_behavior.py::Behavior.Integrate"),
                       bound="one von Mises / linear hardening behaviour, 6 strain states (elastic and plastic), parameters E and v of its elastic law re-assigned", timeout=300,
